@@ -394,6 +394,11 @@ def rule_weights(ctx):
             env[st.targets[0].id] = ev(st.value)
         elif isinstance(st, ast.Return):
             ret = ev(st.value)
+        elif isinstance(st, ast.Expr) and isinstance(st.value, ast.Constant):
+            continue
+        else:
+            # nothing is skipped: a weight that is recomputed / rescaled / clipped under a condition is not the Gaussian weight any more
+            raise AnalysisError("__gauss_prob: statement `%s` is outside the straight-line form the formula is read from" % norm(st)[:70])
     if ret is None:
         raise AnalysisError("__gauss_prob: no return")
     got = ret[0, 0] if isinstance(ret, sp.MatrixBase) else ret
@@ -462,9 +467,16 @@ def rule_slice(ctx):
         hi = wflow.resolve_under(r.value.elts[1], asm, at=r, depth=3)
         wv = wflow.resolve_under(r.value.elts[2], asm, at=r, depth=4)
         gp = [c for c in ast.walk(wv) if isinstance(c, ast.Call) and isinstance(c.func, ast.Attribute) and c.func.attr in ("__gauss_prob", "_BMCI__gauss_prob")]
-        if len(gp) != 1 or len(gp[0].args) < 2:
+        gpf = ctx.func(BM, "BMCI.__gauss_prob")
+        second = gpf.params[2] if len(gpf.params) > 2 else None
+        ydb_arg = None
+        if len(gp) == 1:
+            ydb_arg = gp[0].args[1] if len(gp[0].args) > 1 else next((k_.value for k_ in gp[0].keywords if k_.arg == second), None)
+        if ydb_arg is None:
             raise AnalysisError("weights: the returned weights %s are not one call of __gauss_prob" % norm(wv)[:60])
-        ydb = norm(wflow.resolve_under(gp[0].args[1], asm, at=r, depth=4)).replace(" ", "")
+        ydb = norm(wflow.resolve_under(ydb_arg, asm, at=r, depth=4)).replace(" ", "")
+        if ydb in ("self.y[0:self.n,:]", "self.y[:self.n,:]", "self.y[:,:]", "self.y[0:self.n]", "self.y[:self.n]") and str(norm(lo)) == "0" and str(norm(hi)) == "self.n":
+            ydb = "self.y"          # the whole database written as its full slice
         got[mode] = (str(norm(lo)), str(norm(hi)), ydb)
         facts.append("x2_max %s 0: (%s, %s, weights of %s)" % ("<" if mode else ">=", norm(lo), norm(hi), ydb))
     if len(got) == 2:
